@@ -264,7 +264,7 @@ class Recorder:
         rng = self.rng
         s = self.rand_shape()
         cell = self.rand_codes(int(np.prod(s)) if s else 1)
-        route = rng.choice(["array", "list", "object"])
+        route = rng.choice(["array", "array", "list", "object", "fortran", "strided", "intdata"])
         try:
             with warnings.catch_warnings():
                 warnings.simplefilter("ignore")
